@@ -21,6 +21,7 @@ type VerifFetchEvent struct {
 	Hash            cid.Cid
 	Queue           []VerifQueueItem
 	Results         []cid.Cid
+	Tasks           map[cid.Cid]int // copy of the task cache: 0 added, 1 in progress, 2 done
 	TasksInProgress int
 	MinClock        int
 	MaxClock        int
@@ -51,6 +52,10 @@ func verifFetch(f *Fetcher, kind string, hash cid.Cid, queue processQueue, resul
 	if kind != "fetched" {
 		ev.MinClock = f.minClock
 		ev.MaxClock = f.maxClock
+		ev.Tasks = make(map[cid.Cid]int, len(f.tasksCache))
+		for k, v := range f.tasksCache {
+			ev.Tasks[k] = int(v)
+		}
 	}
 
 	if pq, isPQ := queue.(*priorityQueue); isPQ && pq != nil {
